@@ -68,10 +68,10 @@ KINDS = {
 }
 
 
-def run(g, inp, listform=False):
+def run(g, inp, listform=False, expect=None):
     def body(ch):
         try:
-            return ('ok', g(None, inp))
+            return ('ok', g(expect, inp))
         except MITxError as e:
             return ('mitx', type(e).__name__, str(e))
         except Exception as e:
@@ -121,7 +121,8 @@ class Alternatives(Family):
         self.wrapper = wrapper
         self.name = 'alts_%s%s' % (kind, '' if wrapper == 'plain' else '_in_' + wrapper)
         self.rule = ('%s grader%s: every ordered tuple of 1..4 [quick 3] of the 8 pool alternatives x wrong_msg x inputs %r; '
-                     'oracle: max over single-alternative graders, longest message among ties, wrong_msg iff best is 0 without message'
+                     'oracle: max over single-alternative graders, longest message among ties, wrong_msg iff best is 0 without message; '
+                     'the call also passes an (ignored) expect value as edX does'
                      % (kind, '' if wrapper == 'plain' else ' used as subgrader inside ' + wrapper, KINDS[kind]['inputs']))
 
     def setup(self, tier):
@@ -181,7 +182,8 @@ class Alternatives(Family):
             calls += 1
             where = '%s alternatives %r wrong_msg %r input %r' % (self.name, [self.pool[a] for a in tup], wrong_msg, inp)
             if self.wrapper == 'plain':
-                full = run(inner, inp)
+                # edX hands the problem's expect attribute to every call: a grader with configured answers ignores it
+                full = run(inner, inp, expect=(None if wrong_msg == 'W' else KINDS[self.kind]['expects'][2]))
             elif self.wrapper == 'ListGrader':
                 lg = ListGrader(answers=[answers, answers], subgraders=inner, ordered=True)
                 out = run(lg, [inp, self.inputs[0]])
@@ -208,9 +210,73 @@ class Alternatives(Family):
         return outcome, True in distinct, None, calls
 
 
+class CreditScaling(Family):
+    """anchors the decomposition oracle: what ONE alternative earns is its own credit times what its bare expect value earns"""
+    timeout = 60.0
+
+    def __init__(self, kind):
+        self.kind = kind
+        self.name = 'single_alternative_credit_%s' % kind
+        self.rule = ('%s grader holding ONE alternative {expect, grade_decimal c, msg}: for every pool alternative (tuple-valued '
+                     'expects member by member), credits c in {the pool\'s, 0, 0.25, 1} and every input, the grade is c times the '
+                     'grade of the same grader holding the bare expect value, ok follows the grade, and a zero result never '
+                     'carries full marks' % kind)
+
+    def setup(self, tier):
+        k = KINDS[self.kind]
+        self.pool = pool_for(*k['expects'])
+        self.inputs = k['inputs']
+        self.make = k['make']
+        self.members = []
+        for alt in self.pool:
+            if not isinstance(alt, dict):
+                alt = {'expect': alt, 'grade_decimal': 1, 'msg': ''}
+            for m in (alt['expect'] if isinstance(alt['expect'], tuple) else (alt['expect'],)):
+                for c in (alt['grade_decimal'], 0, 0.25, 1):
+                    cand = (m, c, alt['msg'])
+                    if cand not in self.members:
+                        self.members.append(cand)
+
+    def cases(self, tier):
+        self.setup(tier)
+        return iter([(a, i) for a in range(len(self.members)) for i in range(len(self.inputs))])
+
+    def describe(self, case):
+        a, i = case
+        self.setup('quick')
+        m, c, msg = self.members[a]
+        return {'alternative': {'expect': m, 'grade_decimal': c, 'msg': msg}, 'input': self.inputs[i]}
+
+    def check(self, case):
+        a, i = case
+        m, c, msg = self.members[a]
+        inp = self.inputs[i]
+        base = run(self.make(answers=(m,)), inp)
+        got = run(self.make(answers=({'expect': m, 'grade_decimal': c, 'msg': msg},)), inp)
+        where = '%s alternative {expect %r, grade_decimal %r, msg %r} input %r' % (self.kind, m, c, msg, inp)
+        if base[0] != 'ok' or got[0] != 'ok':
+            if (base[0] == 'ok') != (got[0] == 'ok'):
+                return Result('raise-mismatch', True,
+                              viol(self.name + ':raises-only-with-or-without-credit', '%s: bare expect gives %r, with credit %r'
+                                   % (where, base, got)), 2)
+            return Result('raises', False, None, 2)
+        want = c * base[1]['grade_decimal']
+        g = got[1]['grade_decimal']
+        if abs(g - want) > EPS:
+            return Result('not-scaled', True,
+                          viol(self.name + ':credit-not-scaled', '%s: grade %r, but the bare expect value earns %r and the '
+                               'alternative is worth %r' % (where, g, base[1]['grade_decimal'], c), want, got[1]), 2)
+        exp_ok = True if g == 1 else (False if g == 0 else 'partial')
+        if got[1]['ok'] != exp_ok:
+            return Result('ok-flag', True, viol(self.name + ':ok-flag', '%s: ok %r for grade %r' % (where, got[1]['ok'], g),
+                                                exp_ok, got[1]), 2)
+        return Result('g=%g' % g, base[1]['grade_decimal'] > 0, None, 2)
+
+
 def families(tier):
     fams = [Alternatives(k) for k in ('string', 'table', 'formula', 'numerical', 'matrix', 'singlelist', 'singlelist3',
                                       'matrix_entry', 'matrix_suppressed', 'formula_numbered')]
     fams += [Alternatives(k, 'ListGrader') for k in ('string', 'formula', 'singlelist')]
     fams += [Alternatives(k, 'SingleListGrader') for k in ('string', 'numerical')]
+    fams += [CreditScaling(k) for k in KINDS]
     return fams
